@@ -348,15 +348,22 @@ pub fn run(ctx: &Ctx) -> HResult<()> {
 	ev.assume("headers known first (statement precondition); orphan pool capacity (200) never exceeded by ≤20-block worlds");
 	let cases = ctx.n(48, 1000);
 	let mb = if ctx.quick() { 14 } else { 20 };
-	let fl = pbt_par(ctx, "c03", cases, 16, || case_strategy(mb), init_thread, |c, counting| run_case(ctx, c, counting));
-	if let Some(fl) = fl {
-		ctx.report("world", &fl.fail.sig, serde_json::to_value(&fl.value).unwrap(), &fl.fail.msg);
+	let _ = mb;
+	if let Some((case, f)) = pbt_proc(ctx, "world", cases, 16) {
+		ctx.report("world", &f.sig, case, &f.msg);
 	}
 	let s = sample_one(ctx.derive_seed("sample", 0), &case_strategy(6));
 	ev.sample("world", || serde_json::to_value(&s).unwrap());
-	ev.extra("proofs_created", json!(LIB.proofs_created.load(std::sync::atomic::Ordering::Relaxed)));
 	let _ = BTreeMap::<u8, u8>::new();
 	Ok(())
+}
+
+pub fn part(ctx: &Ctx, part: &str, seed: u64, cases: u32) -> Option<(Value, Fail)> {
+	init_global();
+	match part {
+		"world" => run_part(ctx, seed, cases, &case_strategy(if ctx.quick() { 14 } else { 20 }), |c, counting| run_case(ctx, c, counting)),
+		_ => None,
+	}
 }
 
 pub fn replay(ctx: &Ctx, part: &str, case: &Value) -> PResult {
